@@ -1,27 +1,58 @@
-import PebblesVerif.Model.Format
+import PebblesVerif.Model.Exec
 /-!
 # C02 — every sub-request is valid for, and owned by, its service (partial)
 
-Machine-checked part: what a step's header declares and what `VariablesList` forwards, for
-ALL selection sets. The statement "validates against the receiving service's schema" is decided
-per translation by the oracle run (gqlparser at the receiving service); see checks/C02.json.
+Machine-checked part, for ALL selection sets and ALL operations:
+
+* the header a step's query string opens with declares every variable the step uses directly as
+  the value of an argument of a field OR of a directive of a field (`C02_header_declares`), and
+  `VariablesList` holds it (`C02_variables_forwarded`), so `getVariables` copies the client's value
+  into the sub-request (`C02_value_forwarded`, an explicit `null` included);
+* a variable whose default the client DECLARED (`query($v: Int = 5)`) and for which no value was
+  sent travels as a value: the handler fills the default into the request's variables before
+  planning, and a step that lists the variable sends it (`C02_declared_default_forwarded`).
+
+Both hold for the code as it is now: `format.walkArgumentList` / `planner.getVariablesList` walk
+the directives of every field, `queryHandler` / the `start` arm of `subscriptionHandler` call
+`applyDeclaredDefaults` — regenerated facts `Gen/Vars.lean`, pinned by `C02_vars_facts`. The shape
+before the repair is kept as the `false` branch of the same model functions;
+`C02_before_repair_*` show what it did.
+
+The statement "validates against the receiving service's schema" is decided per translation by
+the oracle run (gqlparser at the receiving service); see checks/C02.json.
 -/
 namespace PebblesVerif
+open PebblesVerif.Exec
 
--- `directArgVars`: variables used directly as the value of an argument that has a definition
--- (`field(arg: $v)`), in document order, inline fragments looked through
+/-- variables used directly as the value of an argument that has a definition (`f(arg: $v)`,
+    `@d(arg: $v)`) -/
+def argUses (argDefs : List ArgDef) (args : List Arg) : List String :=
+  args.filterMap (fun a => match a.value with
+    | .var n _ => if (argDefs.find? (·.name == a.name)).isSome then some n else none
+    | _ => none)
+
+/-- variables used directly in the arguments of one directive the schema defines -/
+def dirUses (schema : Schema) (d : Dir) : List String :=
+  match schema.directives.find? (·.name == d.name) with
+  | none => []
+  | some dd => argUses dd.args d.args
+
+-- `directVarsWith dirs`: the variables a selection set uses directly in argument positions, in
+-- document order, inline fragments looked through: arguments of fields and — `dirs` — arguments of
+-- the directives of fields. `directVars` = both.
 mutual
-  def directArgVars : List Sel → List String
+  def directVarsWith (dirs : Bool) (schema : Schema) : List Sel → List String
     | [] => []
-    | s :: rest => directArgVarsSel s ++ directArgVars rest
-  def directArgVarsSel : Sel → List String
-    | .field _ _ args _ _ argDefs sub =>
-      args.filterMap (fun a => match a.value with
-        | .var n _ => if (argDefs.find? (·.name == a.name)).isSome then some n else none
-        | _ => none) ++ directArgVars sub
-    | .inline _ _ _ _ sub => directArgVars sub
+    | s :: rest => directVarsSelWith dirs schema s ++ directVarsWith dirs schema rest
+  def directVarsSelWith (dirs : Bool) (schema : Schema) : Sel → List String
+    | .field _ _ args ds _ argDefs sub =>
+      argUses argDefs args ++ (if dirs then ds.flatMap (dirUses schema) else []) ++ directVarsWith dirs schema sub
+    | .inline _ _ _ _ sub => directVarsWith dirs schema sub
     | .spread .. => []
 end
+
+/-- every variable used directly in an argument of a field or of a directive of a field -/
+def directVars (schema : Schema) (ss : List Sel) : List String := directVarsWith true schema ss
 
 def hasKey (k : String) (m : List (String × String)) : Prop := ∃ v, (k, v) ∈ m
 
@@ -102,10 +133,9 @@ theorem argsFold_mono (schema : Schema) (argDefs : List ArgDef) (args : List Arg
     exact ih (argStep_mono schema argDefs a h)
 
 theorem argsFold_declares (schema : Schema) (argDefs : List ArgDef) (args : List Arg) (n : String)
-    (hn : n ∈ args.filterMap (fun a => match a.value with
-        | .var n _ => if (argDefs.find? (·.name == a.name)).isSome then some n else none
-        | _ => none)) :
+    (hn : n ∈ argUses argDefs args) :
     ∀ (acc : List (String × String)), hasKey n (args.foldl (argVarTypes schema argDefs) acc) := by
+  unfold argUses at hn
   induction args with
   | nil => simp at hn
   | cons a as ih =>
@@ -131,55 +161,154 @@ theorem argsFold_declares (schema : Schema) (argDefs : List ArgDef) (args : List
       simp only [hv] at hn
       exact ih hn _
 
+/-- the per-directive step never forgets a declared variable -/
+theorem dirStep_mono (schema : Schema) (d : Dir) {k : String} {acc : List (String × String)}
+    (h : hasKey k acc) : hasKey k (dirVarTypes schema acc d) := by
+  unfold dirVarTypes
+  split
+  · exact h
+  · exact argsFold_mono schema _ d.args h
+
+theorem dirsFold_mono (schema : Schema) (ds : List Dir) {k : String} :
+    ∀ {acc : List (String × String)}, hasKey k acc → hasKey k (ds.foldl (dirVarTypes schema) acc) := by
+  induction ds with
+  | nil => intro acc h; simpa using h
+  | cons d ds ih =>
+    intro acc h
+    simp only [List.foldl_cons]
+    exact ih (dirStep_mono schema d h)
+
+theorem dirsFold_declares (schema : Schema) (ds : List Dir) (n : String)
+    (hn : n ∈ ds.flatMap (dirUses schema)) :
+    ∀ (acc : List (String × String)), hasKey n (ds.foldl (dirVarTypes schema) acc) := by
+  induction ds with
+  | nil => simp at hn
+  | cons d ds ih =>
+    intro acc
+    simp only [List.foldl_cons]
+    simp only [List.flatMap_cons, List.mem_append] at hn
+    rcases hn with hn | hn
+    · apply dirsFold_mono
+      unfold dirUses at hn
+      unfold dirVarTypes
+      cases hf : schema.directives.find? (·.name == d.name) with
+      | none => simp [hf] at hn
+      | some dd =>
+        simp only [hf] at hn
+        exact argsFold_declares schema dd.args d.args n hn acc
+    · exact ih hn _
+
 mutual
-  theorem walkArgs_mono (schema : Schema) {k : String} : ∀ (ss : List Sel) {acc : List (String × String)},
-      hasKey k acc → hasKey k (walkArgs schema ss acc)
-    | [], _, h => by simpa [walkArgs] using h
+  theorem walkArgsWith_mono (dirs : Bool) (schema : Schema) {k : String} :
+      ∀ (ss : List Sel) {acc : List (String × String)},
+      hasKey k acc → hasKey k (walkArgsWith dirs schema ss acc)
+    | [], _, h => by simpa [walkArgsWith] using h
     | s :: rest, _, h => by
-      rw [walkArgs]
-      exact walkArgs_mono schema rest (walkArgsSel_mono schema s h)
-  theorem walkArgsSel_mono (schema : Schema) {k : String} : ∀ (s : Sel) {acc : List (String × String)},
-      hasKey k acc → hasKey k (walkArgsSel schema s acc)
-    | .field _ _ args _ _ argDefs sub, _, h => by
-      rw [walkArgsSel]
-      exact walkArgs_mono schema sub (argsFold_mono schema argDefs args h)
+      rw [walkArgsWith]
+      exact walkArgsWith_mono dirs schema rest (walkArgsSelWith_mono dirs schema s h)
+  theorem walkArgsSelWith_mono (dirs : Bool) (schema : Schema) {k : String} :
+      ∀ (s : Sel) {acc : List (String × String)},
+      hasKey k acc → hasKey k (walkArgsSelWith dirs schema s acc)
+    | .field _ _ args ds _ argDefs sub, _, h => by
+      rw [walkArgsSelWith]
+      apply walkArgsWith_mono dirs schema sub
+      cases dirs
+      · exact argsFold_mono schema argDefs args h
+      · exact dirsFold_mono schema ds (argsFold_mono schema argDefs args h)
     | .inline _ _ _ _ sub, _, h => by
-      rw [walkArgsSel]; exact walkArgs_mono schema sub h
+      rw [walkArgsSelWith]; exact walkArgsWith_mono dirs schema sub h
     | .spread .., _, h => by
-      rw [walkArgsSel]; exact h
+      rw [walkArgsSelWith]; exact h
 end
 
 mutual
-  theorem walkArgs_declares (schema : Schema) (n : String) : ∀ (ss : List Sel) (acc : List (String × String)),
-      n ∈ directArgVars ss → hasKey n (walkArgs schema ss acc)
-    | [], _, h => by simp [directArgVars] at h
+  theorem walkArgsWith_declares (dirs : Bool) (schema : Schema) (n : String) :
+      ∀ (ss : List Sel) (acc : List (String × String)),
+      n ∈ directVarsWith dirs schema ss → hasKey n (walkArgsWith dirs schema ss acc)
+    | [], _, h => by simp [directVarsWith] at h
     | s :: rest, acc, h => by
-      rw [walkArgs]
-      simp only [directArgVars, List.mem_append] at h
+      rw [walkArgsWith]
+      simp only [directVarsWith, List.mem_append] at h
       rcases h with h | h
-      · exact walkArgs_mono schema rest (walkArgsSel_declares schema n s acc h)
-      · exact walkArgs_declares schema n rest _ h
-  theorem walkArgsSel_declares (schema : Schema) (n : String) : ∀ (s : Sel) (acc : List (String × String)),
-      n ∈ directArgVarsSel s → hasKey n (walkArgsSel schema s acc)
-    | .field _ _ args _ _ argDefs sub, acc, h => by
-      rw [walkArgsSel]
-      simp only [directArgVarsSel, List.mem_append] at h
-      rcases h with h | h
-      · exact walkArgs_mono schema sub (argsFold_declares schema argDefs args n h acc)
-      · exact walkArgs_declares schema n sub _ h
+      · exact walkArgsWith_mono dirs schema rest (walkArgsSelWith_declares dirs schema n s acc h)
+      · exact walkArgsWith_declares dirs schema n rest _ h
+  theorem walkArgsSelWith_declares (dirs : Bool) (schema : Schema) (n : String) :
+      ∀ (s : Sel) (acc : List (String × String)),
+      n ∈ directVarsSelWith dirs schema s → hasKey n (walkArgsSelWith dirs schema s acc)
+    | .field _ _ args ds _ argDefs sub, acc, h => by
+      rw [walkArgsSelWith]
+      simp only [directVarsSelWith, List.mem_append] at h
+      rcases h with (h | h) | h
+      · apply walkArgsWith_mono dirs schema sub
+        cases dirs
+        · exact argsFold_declares schema argDefs args n h acc
+        · exact dirsFold_mono schema ds (argsFold_declares schema argDefs args n h acc)
+      · apply walkArgsWith_mono dirs schema sub
+        cases dirs
+        · simp at h
+        · exact dirsFold_declares schema ds n (by simpa using h) _
+      · exact walkArgsWith_declares dirs schema n sub _ h
     | .inline _ _ _ _ sub, acc, h => by
-      rw [walkArgsSel]
-      simp only [directArgVarsSel] at h
-      exact walkArgs_declares schema n sub acc h
-    | .spread .., _, h => by simp [directArgVarsSel] at h
+      rw [walkArgsSelWith]
+      simp only [directVarsSelWith] at h
+      exact walkArgsWith_declares dirs schema n sub acc h
+    | .spread .., _, h => by simp [directVarsSelWith] at h
 end
 
-/-- **The synthesised header declares every variable used in an argument position**, for every
-    selection set of every step: `$n: <declared argument type>` is among the declarations. -/
-theorem C02_header_declares (c : PCtx) (st : Step) (n : String) (h : n ∈ directArgVars st.sels) :
-    ∃ t, ("$" ++ n ++ ": " ++ t) ∈ (walkArgs c.schema st.sels []).map (fun (n, t) => "$" ++ n ++ ": " ++ t) := by
-  obtain ⟨t, ht⟩ := walkArgs_declares c.schema n st.sels [] h
-  exact ⟨t, List.mem_map.mpr ⟨(n, t), ht, rfl⟩⟩
+theorem mem_insertSortedStr (x y : String) : ∀ (l : List String), y = x ∨ y ∈ l → y ∈ insertSortedStr x l
+  | [], h => by simpa [insertSortedStr] using h
+  | z :: zs, h => by
+    unfold insertSortedStr
+    split
+    · simpa using h
+    · simp only [List.mem_cons] at h ⊢
+      rcases h with h | h | h
+      · exact Or.inr (mem_insertSortedStr x y zs (Or.inl h))
+      · exact Or.inl h
+      · exact Or.inr (mem_insertSortedStr x y zs (Or.inr h))
+
+theorem mem_foldl_insertSorted (y : String) : ∀ (l acc : List String), (y ∈ acc ∨ y ∈ l) →
+    y ∈ l.foldl (fun acc x => insertSortedStr x acc) acc
+  | [], acc, h => by rcases h with h | h; exact h; cases h
+  | x :: xs, acc, h => by
+    simp only [List.foldl_cons]
+    apply mem_foldl_insertSorted y xs
+    rcases h with h | h
+    · exact Or.inl (mem_insertSortedStr x y acc (Or.inr h))
+    · simp only [List.mem_cons] at h
+      rcases h with h | h
+      · exact Or.inl (mem_insertSortedStr x y acc (Or.inl h))
+      · exact Or.inr h
+
+/-- sorting the declarations loses none -/
+theorem mem_sortStrs {y : String} {l : List String} (h : y ∈ l) : y ∈ sortStrs l :=
+  mem_foldl_insertSorted y l [] (Or.inr h)
+
+/-! ## The facts the theorems stand on -/
+
+/-- **The code has the repaired shape** (read from format/format.go, planner/plan.go, gateway.go,
+    subscription.go on every run): `walkArgumentList` and `getVariablesList` walk the directives
+    of every field; `queryHandler` and the `start` arm of `subscriptionHandler` fill the client's
+    declared defaults into the request's variables between operation selection and planning. -/
+theorem C02_vars_facts :
+    Gen.Vars.recognised = true ∧ Gen.Vars.directivesWalkedInHeader = true
+    ∧ Gen.Vars.directivesWalkedInVariablesList = true ∧ Gen.Vars.declaredDefaultsApplied = true
+    ∧ Gen.Vars.declaredDefaultsAppliedSubscription = true := by decide
+
+/-! ## Declared -/
+
+/-- **The synthesised header declares every variable a step uses** directly as the value of an
+    argument of a field or of a directive of a field, for every selection set of every step:
+    `$n: <type declared at that position>` is among the declarations of the header the query
+    string opens with. -/
+theorem C02_header_declares (c : PCtx) (st : Step) (n : String) (h : n ∈ directVars c.schema st.sels) :
+    ∃ t, ("$" ++ n ++ ": " ++ t) ∈ (header c st).varDecls := by
+  have hfact : Gen.Vars.directivesWalkedInHeader = true := C02_vars_facts.2.1
+  obtain ⟨t, ht⟩ := walkArgsWith_declares true c.schema n st.sels [] h
+  refine ⟨t, ?_⟩
+  unfold header walkArgs
+  rw [hfact]
+  exact mem_sortStrs (List.mem_map.mpr ⟨(n, t), ht, rfl⟩)
 
 theorem foldl_uniq_mem (l : List String) : ∀ (acc : List String) (x : String), (x ∈ acc ∨ x ∈ l) →
     x ∈ l.foldl (fun acc x => if acc.contains x then acc else acc ++ [x]) acc := by
@@ -203,54 +332,320 @@ theorem foldl_uniq_mem (l : List String) : ∀ (acc : List String) (x : String),
 theorem mem_uniq {l : List String} {x : String} (h : x ∈ l) : x ∈ uniq l :=
   foldl_uniq_mem l [] x (Or.inr h)
 
+theorem mem_argRaws_of_uses (argDefs : List ArgDef) (args : List Arg) (n : String)
+    (h : n ∈ argUses argDefs args) : n ∈ args.flatMap argRaws := by
+  unfold argUses at h
+  simp only [List.mem_filterMap] at h
+  obtain ⟨a, ha, hv⟩ := h
+  simp only [List.mem_flatMap]
+  refine ⟨a, ha, ?_⟩
+  cases hval : a.value with
+  | var m et =>
+    simp only [hval] at hv
+    split at hv
+    · simp only [Option.some.injEq] at hv; subst hv; simp [argRaws, hval, Value.raw]
+    · cases hv
+  | _ => simp [hval] at hv
+
+theorem mem_dirRaws_of_uses (schema : Schema) (ds : List Dir) (n : String)
+    (h : n ∈ ds.flatMap (dirUses schema)) : n ∈ ds.flatMap dirRaws := by
+  simp only [List.mem_flatMap] at h ⊢
+  obtain ⟨d, hd, hn⟩ := h
+  refine ⟨d, hd, ?_⟩
+  unfold dirUses at hn
+  cases hf : schema.directives.find? (·.name == d.name) with
+  | none => simp [hf] at hn
+  | some dd =>
+    simp only [hf] at hn
+    exact mem_argRaws_of_uses dd.args d.args n hn
+
 mutual
-  theorem varNames_direct (n : String) : ∀ (ss : List Sel), n ∈ directArgVars ss → n ∈ varNames ss
-    | [], h => by simp [directArgVars] at h
+  theorem varNamesWith_direct (dirs : Bool) (schema : Schema) (n : String) : ∀ (ss : List Sel),
+      n ∈ directVarsWith dirs schema ss → n ∈ varNamesWith dirs ss
+    | [], h => by simp [directVarsWith] at h
     | s :: rest, h => by
-      simp only [directArgVars, List.mem_append] at h
-      simp only [varNames, List.mem_append]
+      simp only [directVarsWith, List.mem_append] at h
+      simp only [varNamesWith, List.mem_append]
       rcases h with h | h
-      · exact Or.inl (varNamesSel_direct n s h)
-      · exact Or.inr (varNames_direct n rest h)
-  theorem varNamesSel_direct (n : String) : ∀ (s : Sel), n ∈ directArgVarsSel s → n ∈ varNamesSel s
-    | .field _ _ args _ _ argDefs sub, h => by
-      simp only [directArgVarsSel, List.mem_append, List.mem_filterMap] at h
-      simp only [varNamesSel, List.mem_append, List.mem_flatMap]
-      rcases h with ⟨a, ha, hv⟩ | h
-      · left
-        refine ⟨a, ha, ?_⟩
-        cases hval : a.value with
-        | var m et =>
-          simp only [hval] at hv
-          split at hv
-          · simp only [Option.some.injEq] at hv; subst hv; simp [argRaws, hval, Value.raw]
-          · cases hv
-        | _ => simp [hval] at hv
-      · exact Or.inr (varNames_direct n sub h)
+      · exact Or.inl (varNamesSelWith_direct dirs schema n s h)
+      · exact Or.inr (varNamesWith_direct dirs schema n rest h)
+  theorem varNamesSelWith_direct (dirs : Bool) (schema : Schema) (n : String) : ∀ (s : Sel),
+      n ∈ directVarsSelWith dirs schema s → n ∈ varNamesSelWith dirs s
+    | .field _ _ args ds _ argDefs sub, h => by
+      simp only [directVarsSelWith, List.mem_append] at h
+      simp only [varNamesSelWith, List.mem_append]
+      rcases h with (h | h) | h
+      · exact Or.inl (Or.inl (mem_argRaws_of_uses argDefs args n h))
+      · cases dirs
+        · simp at h
+        · exact Or.inl (Or.inr (by simpa using mem_dirRaws_of_uses schema ds n (by simpa using h)))
+      · exact Or.inr (varNamesWith_direct dirs schema n sub h)
     | .inline _ _ _ _ sub, h => by
-      simp only [directArgVarsSel] at h
-      simp only [varNamesSel]
-      exact varNames_direct n sub h
-    | .spread .., h => by simp [directArgVarsSel] at h
+      simp only [directVarsSelWith] at h
+      simp only [varNamesSelWith]
+      exact varNamesWith_direct dirs schema n sub h
+    | .spread .., h => by simp [directVarsSelWith] at h
 end
 
-/-- **Every variable used in an argument position is in `VariablesList`**, hence its value is
-    copied from the client's variables into the sub-request's variables (`getVariables`). -/
-theorem C02_variables_forwarded (st : Step) (n : String) (h : n ∈ directArgVars st.sels) :
-    n ∈ variablesList st.sels :=
-  mem_uniq (varNames_direct n st.sels h)
+/-! ## Forwarded -/
 
-/-- **Known gap, by evaluation**: a variable used only inside a directive is neither declared
-    nor forwarded (`{ q @include(if: $v) }`) — the full statement "declares every variable it
-    uses" is false of the current code; see finding C02-directive-variable-undeclared. -/
-theorem C02_directive_variable_gap :
-    let sel : Sel := .field "q" "q" [] [⟨"include", [⟨"if", .var "v"⟩]⟩] (.named "String") [] []
-    walkArgs ⟨[], [], [], [], none, none, none⟩ [sel] [] = [] ∧ variablesList [sel] = [] := by
+/-- **Every variable a step uses** (argument of a field or of a directive of a field) **is in its
+    `VariablesList`**, whatever schema the definitions are looked up in. -/
+theorem C02_variables_forwarded (schema : Schema) (st : Step) (n : String) (h : n ∈ directVars schema st.sels) :
+    n ∈ variablesList st.sels := by
+  have hfact : Gen.Vars.directivesWalkedInVariablesList = true := C02_vars_facts.2.2.1
+  unfold variablesList varNames
+  rw [hfact]
+  exact mem_uniq (varNamesWith_direct true schema n st.sels h)
+
+namespace C02
+theorem lookup_setKey_same (k : String) (v : J) : ∀ (m : List (String × J)), J.lookup k (J.setKey k v m) = some v
+  | [] => by simp [J.setKey, J.lookup]
+  | (k', v') :: rest => by
+    by_cases hk : k = k'
+    · simp [J.setKey, J.lookup, hk]
+    · simp [J.setKey, J.lookup, hk, lookup_setKey_same k v rest]
+
+theorem lookup_setKey_ne (k k' : String) (v : J) (hne : k ≠ k') : ∀ (m : List (String × J)),
+    J.lookup k (J.setKey k' v m) = J.lookup k m
+  | [] => by simp [J.setKey, J.lookup, hne]
+  | (k'', v'') :: rest => by
+    by_cases hk : k' = k''
+    · subst hk; simp [J.setKey, J.lookup, hne]
+    · by_cases hk2 : k = k''
+      · simp [J.setKey, J.lookup, hk, hk2]
+      · simp [J.setKey, J.lookup, hk, hk2, lookup_setKey_ne k k' v hne rest]
+
+/-- the copying loop of `getVariables`: a listed variable the request carries ends up in the result -/
+theorem copy_lookup (rv : List (String × J)) (n : String) (x : J) (hx : J.lookup n rv = some x) :
+    ∀ (l : List String) (acc : List (String × J)), (n ∈ l ∨ J.lookup n acc = some x) →
+    J.lookup n (l.foldl (fun acc v => match J.lookup v rv with
+        | some y => J.setKey v y acc
+        | none => acc) acc) = some x
+  | [], acc, h => by
+    rcases h with h | h
+    · cases h
+    · simpa using h
+  | v :: vs, acc, h => by
+    simp only [List.foldl_cons]
+    apply copy_lookup rv n x hx vs
+    by_cases hv : n = v
+    · subst hv
+      right
+      simp only [hx]
+      exact lookup_setKey_same n x acc
+    · rcases h with h | h
+      · simp only [List.mem_cons] at h
+        rcases h with h | h
+        · exact absurd h hv
+        · exact Or.inl h
+      · right
+        cases hl : J.lookup v rv with
+        | none => simpa using h
+        | some y => simp only []; rw [lookup_setKey_ne n v y hv]; exact h
+end C02
+
+/-- **`getVariables` forwards the value of every listed variable the request carries** — a value
+    the client sent (an explicit `null` is one) or a declared default filled in by the handler.
+    `$id` of a child step is the executor's own (open finding `variable-named-id`), hence the
+    side condition. -/
+theorem C02_value_forwarded (rv : List (String × J)) (c : PCtx) (er : ExecReq) (n : String) (x : J)
+    (vars : List (String × J)) (hlisted : n ∈ variablesList er.step.sels) (hx : J.lookup n rv = some x)
+    (hid : er.ip = [] ∨ n ≠ "id") (hok : getVariables (some rv) c er = .ok vars) :
+    J.lookup n vars = some x := by
+  have hbase := C02.copy_lookup rv n x hx (variablesList er.step.sels) [] (Or.inl hlisted)
+  unfold getVariables at hok
+  simp only [] at hok
+  cases hl : er.ip.getLast? with
+  | none =>
+    simp only [hl] at hok
+    cases hok
+    exact hbase
+  | some head =>
+    have hne : n ≠ "id" := by
+      rcases hid with h | h
+      · rw [h] at hl; simp at hl
+      · exact h
+    simp only [hl, bind, Except.bind] at hok
+    cases hp : Point.extract head with
+    | error e => simp [hp] at hok
+    | ok pd =>
+      simp only [hp] at hok
+      split at hok
+      · cases hok
+      · cases hok
+        rw [C02.lookup_setKey_ne n "id" _ hne]
+        exact hbase
+
+/-! ## Declared defaults -/
+
+namespace C02
+/-- one step of `applyDeclaredDefaults` keeps what the request already carries -/
+theorem step_keeps (n : String) (x : J) (vd : VarDef) (rv : Option (List (String × J)))
+    (h : J.lookup n (rv.getD []) = some x) :
+    J.lookup n ((match vd.default with
+      | none => rv
+      | some d =>
+        if (J.lookup vd.name (rv.getD [])).isSome then rv else
+        match Spec.constToJ d with
+        | none => rv
+        | some v => some (J.setKey vd.name v (rv.getD []))).getD []) = some x := by
+  cases vd.default with
+  | none => exact h
+  | some d =>
+    simp only []
+    split
+    · exact h
+    · rename_i hns
+      cases Spec.constToJ d with
+      | none => exact h
+      | some v =>
+        simp only [Option.getD_some]
+        have hne : n ≠ vd.name := by
+          intro he; subst he; rw [h] at hns; simp at hns
+        rw [lookup_setKey_ne n vd.name v hne]
+        exact h
+
+theorem apply_keeps (n : String) (x : J) : ∀ (varDefs : List VarDef) (rv : Option (List (String × J))),
+    J.lookup n (rv.getD []) = some x → J.lookup n ((applyDeclaredDefaults varDefs rv).getD []) = some x
+  | [], rv, h => by simpa [applyDeclaredDefaults] using h
+  | vd :: rest, rv, h => by
+    unfold applyDeclaredDefaults
+    simp only [List.foldl_cons]
+    exact apply_keeps n x rest _ (step_keeps n x vd rv h)
+
+/-- the first definition of a variable decides: with a default and no value sent, the default
+    is filled in -/
+theorem apply_default (n : String) (d : Value) (v : J) (hv : Spec.constToJ d = some v) :
+    ∀ (varDefs : List VarDef) (rv : Option (List (String × J))),
+    (∃ vd ∈ varDefs, vd.name = n ∧ vd.default = some d ∧ ∀ vd' ∈ varDefs, vd'.name = n → vd' = vd) →
+    J.lookup n (rv.getD []) = none →
+    J.lookup n ((applyDeclaredDefaults varDefs rv).getD []) = some v
+  | [], _, h, _ => by obtain ⟨vd, hm, _⟩ := h; cases hm
+  | vd0 :: rest, rv, h, hnone => by
+    obtain ⟨vd, hm, hname, hdef, huniq⟩ := h
+    unfold applyDeclaredDefaults
+    simp only [List.foldl_cons]
+    by_cases h0 : vd0.name = n
+    · -- this definition is the one
+      have heq : vd0 = vd := huniq vd0 (by simp) h0
+      subst heq
+      apply apply_keeps n v rest
+      simp only [hdef, h0, hnone, Option.isSome_none, Bool.false_eq_true, ↓reduceIte, hv, Option.getD_some]
+      exact lookup_setKey_same n v _
+    · -- another variable: `n` stays absent, the definition of `n` is further on
+      have hm' : vd ∈ rest := by
+        simp only [List.mem_cons] at hm
+        rcases hm with hm | hm
+        · subst hm; exact absurd hname h0
+        · exact hm
+      apply apply_default n d v hv rest _ ⟨vd, hm', hname, hdef, fun vd' hvd' => huniq vd' (by simp [hvd'])⟩
+      cases vd0.default with
+      | none => exact hnone
+      | some d0 =>
+        simp only []
+        split
+        · exact hnone
+        · cases Spec.constToJ d0 with
+          | none => exact hnone
+          | some v0 =>
+            simp only [Option.getD_some]
+            rw [lookup_setKey_ne n vd0.name v0 (fun he => h0 he.symm)]
+            exact hnone
+end C02
+
+/-- **A client variable with a declared default and no value is forwarded with the default**: for
+    every operation whose variable definitions define `$n` once, with default `d`, and every
+    request that carries no value for `n` (no variables at all included), every sub-request whose
+    step lists `n` is sent with the default's value for it. -/
+theorem C02_declared_default_forwarded (op : Op) (reqVars : Option (List (String × J))) (c : PCtx) (er : ExecReq)
+    (n : String) (d : Value) (v : J) (vars : List (String × J))
+    (hdef : ∃ vd ∈ op.varDefs, vd.name = n ∧ vd.default = some d ∧ ∀ vd' ∈ op.varDefs, vd'.name = n → vd' = vd)
+    (hv : Spec.constToJ d = some v)
+    (hnone : J.lookup n (reqVars.getD []) = none)
+    (hlisted : n ∈ variablesList er.step.sels) (hid : er.ip = [] ∨ n ≠ "id")
+    (hok : getVariables (withDeclaredDefaults Gen.Vars.declaredDefaultsApplied op reqVars) c er = .ok vars) :
+    J.lookup n vars = some v := by
+  have hfact : Gen.Vars.declaredDefaultsApplied = true := C02_vars_facts.2.2.2.1
+  rw [hfact] at hok
+  have hl := C02.apply_default n d v hv op.varDefs reqVars hdef hnone
+  simp only [withDeclaredDefaults, ↓reduceIte] at hok
+  cases hrv : applyDeclaredDefaults op.varDefs reqVars with
+  | none => rw [hrv] at hl; simp [J.lookup] at hl
+  | some rv =>
+    rw [hrv] at hl hok
+    exact C02_value_forwarded rv c er n v vars hlisted (by simpa using hl) hid hok
+
+/-- **A value the client sent stays** (an explicit `null` is a value): the declared default does
+    not replace it, and it is forwarded. -/
+theorem C02_sent_value_kept (op : Op) (rv0 : List (String × J)) (c : PCtx) (er : ExecReq)
+    (n : String) (x : J) (vars : List (String × J)) (hx : J.lookup n rv0 = some x)
+    (hlisted : n ∈ variablesList er.step.sels) (hid : er.ip = [] ∨ n ≠ "id")
+    (hok : getVariables (withDeclaredDefaults Gen.Vars.declaredDefaultsApplied op (some rv0)) c er = .ok vars) :
+    J.lookup n vars = some x := by
+  have hl : J.lookup n ((withDeclaredDefaults Gen.Vars.declaredDefaultsApplied op (some rv0)).getD []) = some x := by
+    unfold withDeclaredDefaults
+    split
+    · exact C02.apply_keeps n x op.varDefs (some rv0) (by simpa using hx)
+    · simpa using hx
+  cases hrv : withDeclaredDefaults Gen.Vars.declaredDefaultsApplied op (some rv0) with
+  | none => rw [hrv] at hl; simp [J.lookup] at hl
+  | some rv =>
+    rw [hrv] at hl hok
+    exact C02_value_forwarded rv c er n x vars hlisted (by simpa using hl) hid hok
+
+/-! ## What the shape before the repair did (the `false` branches of the same model functions) -/
+
+/-- a schema that defines `@include(if: Boolean!)` and nothing else -/
+def C02.includeSchema : Schema :=
+  ⟨[], [⟨"include", "", [⟨"if", .nonNull (.named "Boolean"), none, "", []⟩], [], false⟩], [], [], none, none, none⟩
+
+/-- `{ q @include(if: $v) }` -/
+def C02.dirSel : Sel := .field "q" "q" [] [⟨"include", [⟨"if", .var "v"⟩]⟩] (.named "String") [] []
+
+/-- **Before the repair** (`walkArgumentList` / `getVariablesList` look at field arguments only):
+    the variable of `{ q @include(if: $v) }` is neither declared nor listed — the service answers
+    `Variable "$v" is not defined`. With the directives walked it is declared `$v: Boolean!` and
+    listed. -/
+theorem C02_before_repair_directive_variable :
+    (walkArgsWith false C02.includeSchema [C02.dirSel] [] = [] ∧ uniq (varNamesWith false [C02.dirSel]) = [])
+    ∧ (walkArgsWith true C02.includeSchema [C02.dirSel] [] = [("v", "Boolean!")]
+       ∧ uniq (varNamesWith true [C02.dirSel]) = ["v"]) := by
+  refine ⟨⟨rfl, rfl⟩, rfl, rfl⟩
+
+/-- `query($v: Int = 5) { f(a: $v) }` -/
+def C02.defaultOp : Op :=
+  ⟨.query, "", [⟨"v", .named "Int", some (.int "5")⟩],
+   [.field "f" "f" [⟨"a", .var "v"⟩] [] (.named "String") [⟨"a", .named "Int", none, "", []⟩] []]⟩
+
+/-- **Before the repair** (no `applyDeclaredDefaults`): `query($v: Int = 5) { f(a: $v) }` sent
+    without variables reaches the service without a value for `$v` (and the header declares
+    `$v: Int`, without the default): the argument is absent. With the defaults applied the
+    sub-request carries `v = 5`. -/
+theorem C02_before_repair_default_dropped :
+    let er : ExecReq := ⟨.mk "A" "Query" C02.defaultOp.sels [] [], []⟩
+    let c : PCtx := { schema := C02.includeSchema, tum := [], opKind := .query, opName := "" }
+    getVariables (withDeclaredDefaults false C02.defaultOp none) c er = .ok []
+    ∧ getVariables (withDeclaredDefaults true C02.defaultOp none) c er = .ok [("v", .num "5")] := by
+  intro er c
   exact ⟨rfl, rfl⟩
 
-/-- Non-vacuity of `C02_header_declares`: `user(id: $uid)` declares `$uid: ID!`. -/
-example : walkArgs ⟨[], [], [], [], none, none, none⟩
-    [.field "user" "user" [⟨"id", .var "uid"⟩] [] (.named "User") [⟨"id", .nonNull (.named "ID"), none, "", []⟩] []] []
-    = [("uid", "ID!")] := by rfl
+/-- Non-vacuity of `C02_header_declares`: `user(id: $uid) @include(if: $v)` declares `$uid: ID!`
+    and `$v: Boolean!`; both are used directly. -/
+example :
+    let sel : Sel := .field "user" "user" [⟨"id", .var "uid"⟩] [⟨"include", [⟨"if", .var "v"⟩]⟩] (.named "User")
+      [⟨"id", .nonNull (.named "ID"), none, "", []⟩] []
+    walkArgs C02.includeSchema [sel] [] = [("uid", "ID!"), ("v", "Boolean!")]
+    ∧ directVars C02.includeSchema [sel] = ["uid", "v"] ∧ variablesList [sel] = ["uid", "v"] := by
+  decide
+
+/-- Non-vacuity of `C02_declared_default_forwarded`: the hypotheses hold for
+    `query($v: Int = 5) { f(a: $v) }` sent without variables. -/
+example : (∃ vd ∈ C02.defaultOp.varDefs, vd.name = "v" ∧ vd.default = some (.int "5")
+      ∧ ∀ vd' ∈ C02.defaultOp.varDefs, vd'.name = "v" → vd' = vd)
+    ∧ Spec.constToJ (.int "5") = some (.num "5") ∧ "v" ∈ variablesList C02.defaultOp.sels := by
+  refine ⟨⟨⟨"v", .named "Int", some (.int "5")⟩, by simp [C02.defaultOp], rfl, rfl, ?_⟩, rfl, by decide⟩
+  intro vd' h _
+  simpa [C02.defaultOp] using h
 
 end PebblesVerif
